@@ -436,12 +436,25 @@ Proof.
   induction k as [|k IH]; intros st fields obf obd Hf; [lia|]. rewrite order_by_loop_S. wps.
   destruct (nth_error T (idx st)) as [t|] eqn:E; [pose proof (tok_inside _ _ E) as Hin; destruct t|];
     try (wps; exact I); try (apply IH; rfuel).
-  - destruct (parse_usize x) as [i|].
-    + destruct ((1 <=? i)%N && (i <=? N.of_nat (length fields))%N) eqn:Er; [|wps; exact I].
+  - apply wp_bind.
+    set (st1 := mkPS (S (idx st)) (roots_parsed st) (where_parsed st)).
+    assert (Hexpr : wp True (dom _ <- drop_lexem;; tryr e <- parse_expr_top T;;
+                             match e with Some f => order_by_loop T k fields (obf ++ [f]) (obd ++ [true]) | None => err "Error parsing order by" end) st1 Tr).
+    { unfold st1. wps. apply wp_try. eapply wp_mono; [apply expr_top_spec|]. cbv beta.
+      intros [[e|]|m] st2 H1; cbn [post_p idx] in H1; [|contradiction|exact I]. apply IH. rfuel. }
+    assert (Hpos : forall i, wp True (if (1 <=? i)%N && (i <=? N.of_nat (length fields))%N
+                                      then match nth_error fields (N.to_nat (i - 1)) with
+                                           | Some f => order_by_loop T k fields (obf ++ [f]) (obd ++ [true])
+                                           | None => panic "parse_order_by: fields[idx - 1]" end
+                                      else err "Order by position is out of range") st1 Tr).
+    { intros i. destruct ((1 <=? i)%N && (i <=? N.of_nat (length fields))%N) eqn:Er; [|wps; exact I].
       pose proof (order_index_ok fields i Er) as Hn.
-      destruct (nth_error fields (N.to_nat (i - 1))); [apply IH; rfuel|congruence].
-    + wps. apply wp_try. eapply wp_mono; [apply expr_top_spec|]. cbv beta.
-      intros [[e|]|m] st1 H1; cbn [post_p idx] in H1; [|contradiction|exact I]. apply IH. rfuel.
+      destruct (nth_error fields (N.to_nat (i - 1))); [apply IH; unfold st1; rfuel|congruence]. }
+    destruct (parse_usize x) as [i|].
+    + wps. cbn [Nat.sub]. fold st1.
+      replace (mkPS (idx st1 - 0) (roots_parsed st1) (where_parsed st1)) with st1 by (unfold st1; cbn [idx roots_parsed where_parsed]; now rewrite Nat.sub_0_r).
+      destruct (nth_error T (idx st1)) as [[]|]; first [apply Hpos | exact Hexpr].
+    + wps. exact Hexpr.
   - destruct (is_empty obd); [wps; exact I|apply IH; rfuel].
 Qed.
 
